@@ -181,6 +181,16 @@ def tamper_at_endpoint(v, tier, rnd):
                         d = bytearray(data)
                         d[pos] ^= 1 << bit
                         variants.append((f'bit {bit} of octet {pos}', bytes(d)))
+            # modifications of TWO octets at once: the header's Next Payload octet names another first payload (known / unknown types) and the generic header
+            # of that payload gets the critical bit - what the receiver then meets in the CLEAR chain must not matter before the checksum has been verified
+            for first in (0, 33, 41, 43, 47, 99, 200, 255):
+                for crit in (0x00, 0x80):
+                    d = bytearray(data)
+                    d[16], d[29] = first, crit
+                    if bytes(d) != data:
+                        variants.append((f'first payload {first}, critical octet {crit:#x}', bytes(d)))
+            # ... and a bare forgery built from the clear header alone: an unknown critical payload instead of the encrypted one
+            variants.append(('header + unknown critical payload, no SK', data[:16] + bytes([200]) + data[17:24] + (36).to_bytes(4, 'big') + bytes([0, 0x80, 0, 8, 1, 2, 3, 4])))
             variants += [('truncated by one octet', data[:-1]), ('cut to the header', data[:28]), ('extended by 16 octets', data + b'\0' * 16),
                          ('encrypted payload zeroed', data[:32] + b'\0' * (len(data) - 32)), ('checksum zeroed', data[:-icv] + b'\0' * icv)]
             for label, d in variants:
